@@ -138,6 +138,15 @@ def check(ctx):
         rows = R.run_kind(ctx, kind)
         R.compare(ctx, rows, _errs, f'C07 an error of any source of a multi-source operator surfaces once ({kind})', nontrivial=lambda c, gd: 'E' in c.split('srcs=')[-1], max_report=2)
 
+    # errors crossing a hand-off (ObserveOn / SubscribeOn / ToChannel), also under a subscription context that is already
+    # cancelled (a done context does not end a stream; the Error must still reach the subscriber): the terminal of the
+    # delivered trace against the model (the hand-off models belong to C08 / C17; C07 looks at the terminal only)
+    import chan_common as CC
+    hrows = [r for r in CC.get_rows(ctx, 'chan') if CC.op_of(r[0]) in ('ObserveOn', 'SubscribeOn', 'ToChannel') and 'cut=-' in r[0] and 'E' in r[0].split('src=')[-1]]
+    hrows, _, _ = CC.settle_transients(ctx, hrows)
+    R.compare(ctx, hrows, lambda d: (flag(d), [t for t in toks(d.get('trace')) if t[:1] in ('E', 'C')][-1:]), 'C07 an error of the source crosses the hand-off operators (also under a cancelled subscription context)',
+              nontrivial=lambda c, gd: True, max_report=2)
+
     rows = R.run_kind(ctx, 'fault')
     R.compare(ctx, rows, proj_all, 'C07 fault injection (trace, drops, unhandled hook, escaped panics, teardown count, usability)',
               oracle=oracle_fault, nontrivial=nontrivial_fault)
